@@ -165,6 +165,20 @@ def ann_alive(obs):
 ANN_TOTAL = Leg("c16.total", _T.gen, py_spec=lambda c: "ALIVE", spec_proj=ann_alive, shrink=_T.shrink,
                 nontrivial=_T.nontrivial, describe=_T.describe)
 
+import c15
+_M = [l for l in c15.LEGS if l.name == "c15.members"][0]
+
+
+def members_alive(obs):
+    return obs[:80] if obs.startswith(("PANIC", "CRASH", "TIMEOUT", "FATAL")) or "CRASH" in obs[:40] else "ALIVE"
+
+
+# class hierarchies (cycles, diamonds, self-parents, alias chains) through completion / definition of the real server:
+# theorems C01_class_closure_terminates / C01_alias_resolution_terminates are about the C15 model; leg and generator are C15's
+CLASS_TOTAL = Leg("c15.members", lambda rng, tier: _M.gen(rng, tier)[:1200] if tier != "thorough" else _M.gen(rng, tier), py_spec=lambda c: "ALIVE",
+                  spec_proj=members_alive, shrink=_M.shrink, nontrivial=_M.nontrivial, describe=_M.describe,
+                  per_case_s=_M.per_case_s)
+
 LEGS = [
     Leg("c01.parse", gen_parse, py_spec=lambda c: "ALIVE", spec_proj=alive, shrink=shrink_bytes, canon_impl=strip_locs,
         skip_model=lambda m: m.startswith("SKIP"), nontrivial=lambda c: len(c) > 8,
@@ -172,6 +186,7 @@ LEGS = [
     Leg("c01.server", gen_server, canon_impl=server_alive, per_case_s=2.0, jobs=16,
         nontrivial=lambda c: c.count(" S:") > 5, describe=lambda c: "%d files, %d steps" % (c.count("F:"), c.count(" S:"))),
     ANN_TOTAL,
+    CLASS_TOTAL,
 ]
 
 TRUSTED = vlib.TRUSTED_COMMON + [
@@ -181,5 +196,5 @@ TRUSTED = vlib.TRUSTED_COMMON + [
 
 
 def main(tier, seed):
-    return vlib.standard_main("C01", LEGS, tier, seed, trusted=TRUSTED, other_models={"c16.": "C16"},
+    return vlib.standard_main("C01", LEGS, tier, seed, trusted=TRUSTED, other_models={"c16.": "C16", "c15.": "C15"},
                               assumptions=["handlers outside the modelled cores (hover label rendering, signature help, completion deep paths) have no theorem; they are exercised by leg c01.server only"])
